@@ -29,10 +29,10 @@ D == INSTANCE PegDen WITH Nodes <- Nodes, W <- cs.w
 DenFuel == 160
 
 NoCase == [id |-> 0, g |-> 0, w |-> <<>>, A |-> 1, M |-> 1, af |-> 0, cf |-> 1, trk |-> 0, eol |-> 3,
-           ib |-> 0, il |-> 1, ic |-> 1, cls |-> 0, xt |-> 0, bmax |-> 0, bchunk |-> 0, sched |-> 0]
+           ib |-> 0, il |-> 1, ic |-> 1, cls |-> 0, xt |-> 0, bmax |-> 0, bchunk |-> 0, sched |-> 0, tl |-> <<>>, bt |-> <<>>]
 NoLast == [r |-> 0, v |-> -1, o |-> 0, mx |-> 0, lvl |-> 0, x |-> 0, eo |-> 0, tr |-> <<>>, endv |-> -1, endx |-> 0]
 Cnt0   == [ev |-> 0, cases |-> 0, den |-> 0, opq |-> 0, req |-> 0, look |-> 0, pos |-> 0, hook |-> 0, act |-> 0,
-           xcs |-> 0, ends |-> 0, raise |-> 0, fuel |-> 0, state |-> 0, sw |-> 0, tree |-> 0, rd |-> 0, cls2 |-> 0, ana |-> 0, anag |-> 0, anap |-> -1, anacert |-> 0, analoop |-> 0, acc |-> 0, slices |-> 0]
+           xcs |-> 0, ends |-> 0, raise |-> 0, fuel |-> 0, state |-> 0, sw |-> 0, tree |-> 0, rd |-> 0, cls2 |-> 0, ana |-> 0, anag |-> 0, anap |-> -1, anacert |-> 0, analoop |-> 0, acc |-> 0, slices |-> 0, cov |-> 0]
 
 CInit == /\ stk = <<>>
          /\ cs = NoCase
@@ -128,6 +128,10 @@ BoundV(ev, idx, r) == If(ev.e >= 0 /\ (ev.o < 0 \/ ev.o > ev.e \/ ev.e > Len(cs.
                          V("C03", idx, r, "cursor or logical end outside the input", ev.o, ev.e))
 
 Bump(c, key) == [c EXCEPT ![key] = @ + 1]
+\* tallies of a coverage run: rule (or <<parent, child>>) -> <<start, success, failure, unwind, raise>>, counted from en / ex / xc / ra
+TZero == <<0, 0, 0, 0, 0>>
+TInc(t, key, i) == IF key \in DOMAIN t THEN [t EXCEPT ![key] = [@ EXCEPT ![i] = @ + 1]] ELSE (key :> [TZero EXCEPT ![i] = 1]) @@ t
+TGet(t, key) == IF key \in DOMAIN t THEN t[key] ELSE TZero
 
 \* The verdict log is capped: a defect that shows in every case would otherwise make every state carry (and TLC
 \* fingerprint) a log of tens of thousands of records.  Truncation is visible to the driver (Len = MaxV).
@@ -138,7 +142,7 @@ VCap(v) == IF Len(v) > MaxV THEN SubSeq(v, 1, MaxV) ELSE v
 (* case: a new run starts *)
 OnCase(ev, idx) ==
    /\ stk' = <<>>
-   /\ cs' = ev
+   /\ cs' = ev @@ [tl |-> <<>>, bt |-> <<>>]      \* (tallies of a coverage run, see OnCov)
    /\ lastx' = NoLast
    /\ verd' = VCap(verd \o If(stk # <<>>, V("C08", idx, 0, "run ended with open invocations", Len(stk), 0)))
    /\ cnt' = [cnt EXCEPT !.cases = @ + 1, !.ev = @ + 1, !.cls2 = @ + (IF ev.cls >= 2 THEN 1 ELSE 0)]
@@ -165,7 +169,8 @@ OnEnter(ev, idx) ==
         \o If(stk # <<>> /\ FrameLim(Top) # 2 /\ ev.e # Top.e /\ OpOf(Top.r) \notin {"rematch", "minus", "opaque"},
               V("C18", idx, Top.r, "logical end of the input changed without a byte limit", ev.e, Top.e)))
    /\ cnt' = Bump(Bump(cnt, "pos"), "ev")
-   /\ UNCHANGED <<cs, lastx>>
+   /\ cs' = IF cs.xt = 4 THEN [cs EXCEPT !.tl = TInc(@, ev.r, 1), !.bt = IF stk = <<>> THEN @ ELSE TInc(@, <<Top.r, ev.r>>, 1)] ELSE cs
+   /\ UNCHANGED lastx
 
 (* st su fa uw: control hooks of the innermost open invocation (C08) *)
 HookPhase(k) == CASE k = "st" -> 1 [] k = "su" -> 3 [] k = "fa" -> 4 [] k = "uw" -> 5
@@ -204,7 +209,8 @@ OnRaise(ev, idx) ==
            \o If(fromRaise /\ ev.o # f.o, V("C05", idx, ev.r, "raise rule raised away from its position", ev.o, f.o))
            \o PosV(ev, idx, ev.r))
       /\ cnt' = Bump(Bump(cnt, "raise"), "ev")
-      /\ UNCHANGED <<stk, cs, lastx>>
+      /\ cs' = IF cs.xt = 4 THEN [cs EXCEPT !.tl = TInc(@, ev.r, 5)] ELSE cs
+      /\ UNCHANGED <<stk, lastx>>
 
 (* ap a0: the control dispatched an action (C04, C08) *)
 OnApply(ev, idx) ==
@@ -307,6 +313,7 @@ DenV(f, idx, v, o, x) ==   \* v: 1 success, 0 failure, 2 exception of class x
                     ELSE IF cs.cls >= 2 THEN "C07"       \* the same case through a memory input is validated separately
                     ELSE IF cs.xt = 3 THEN "C03"         \* slice: the bytes behind the logical end influenced the outcome
                     ELSE IF MiOf(cs.cf) > 0 THEN "C05"   \* must_if: which local failures become global ones
+                    ELSE IF cs.xt = 4 THEN "C08"         \* coverage run: the state_control adapter or the coverage state interfered
                     ELSE PropOfRule(f.r)
         IN If(~agree, V(prop, idx, f.r, "outcome differs from the denotation", <<v, o, x>>, d))
 
@@ -365,7 +372,8 @@ OnExit(ev, idx) ==
            /\ cnt' = [cnt EXCEPT !.ev = @ + 1, !.den = @ + 1, !.pos = @ + 1,
                                  !.req = @ + (IF ev.v = 0 /\ f.M = 1 THEN 1 ELSE 0),
                                  !.look = @ + (IF OpOf(f.r) \in {"at", "not_at"} THEN 1 ELSE 0)]
-           /\ UNCHANGED cs
+           /\ cs' = IF cs.xt = 4 THEN [cs EXCEPT !.tl = TInc(@, f.r, IF ev.v = 1 THEN 2 ELSE 3),
+                                                 !.bt = IF rest = <<>> THEN @ ELSE TInc(@, <<rest[Len(rest)].r, f.r>>, IF ev.v = 1 THEN 2 ELSE 3)] ELSE cs
 
 (* xc: an exception passes through the invocation *)
 OnExc(ev, idx) ==
@@ -395,7 +403,7 @@ OnExc(ev, idx) ==
                 \o If(ev.d # f.d, V("C18", idx, f.r, "depth counter not restored", f.d, ev.d))
                 \o (IF fuel THEN <<>> ELSE DenV(f, idx, 2, ev.o, ev.x)))
            /\ cnt' = [cnt EXCEPT !.ev = @ + 1, !.xcs = @ + 1, !.fuel = @ + (IF fuel THEN 1 ELSE 0)]
-           /\ UNCHANGED cs
+           /\ cs' = IF cs.xt = 4 THEN [cs EXCEPT !.tl = TInc(@, f.r, 4), !.bt = IF rest = <<>> THEN @ ELSE TInc(@, <<rest[Len(rest)].r, f.r>>, 4)] ELSE cs
 
 -----------------------------------------------------------------------------
 (* end: parse() returned or threw (C01, C05) *)
@@ -424,7 +432,7 @@ OnEnd(ev, idx) ==
        perr == ev.v = 2 /\ ev.x = 1
    IN /\ verd' = VCap(verd
            \o If(stk # <<>>, V("C08", idx, 0, "run ended with open invocations", Len(stk), 0))
-           \o If(~skip /\ ~agree, V(IF d.k = "X" /\ d.who \in D!XLimits THEN "C18" ELSE IF cs.cls >= 2 THEN "C07" ELSE IF cs.xt = 3 THEN "C03" ELSE PropOfRule(cs.g), idx, cs.g, "result of the run differs from the denotation", <<ev.v, ev.o, ev.x>>, d))
+           \o If(~skip /\ ~agree, V(IF d.k = "X" /\ d.who \in D!XLimits THEN "C18" ELSE IF cs.cls >= 2 THEN "C07" ELSE IF cs.xt = 3 THEN "C03" ELSE IF MiOf(cs.cf) > 0 THEN "C05" ELSE IF cs.xt = 4 THEN "C08" ELSE PropOfRule(cs.g), idx, cs.g, "result of the run differs from the denotation", <<ev.v, ev.o, ev.x>>, d))
            \o If(~skip /\ agree /\ perr /\ d.k = "X" /\ ev.msg # MsgOf(d.who, d.m),
                  V("C05", idx, d.who, "parse_error does not name the first failing must/raise rule", ev.msg, MsgOf(d.who, d.m)))
            \o If(~skip /\ agree /\ perr /\ d.k = "X" /\ ev.nested # d.n,
@@ -466,8 +474,33 @@ OnTree(ev, idx) ==
    /\ cnt' = Bump(Bump(cnt, "tree"), "ev")
    /\ UNCHANGED <<stk, cs, lastx>>
 
+(* cov: what pegtl::coverage< Rule, Action, Control >() reported for the run that was just observed (C08).  The observer saw
+   every invocation of every rule -- Control< Rule >::match is the seam, whatever the control's visibility -- so it knows
+   the counters the coverage state must have arrived at: per rule and per (parent, child) branch start = number of
+   invocations, success / failure / unwind = how they ended, raise = calls of Control< Rule >::raise. *)
+OnCov(ev, idx) ==
+   LET R == ev.rules   B == ev.br
+       ruleOff == \E i \in 1..Len(R) : R[i][1] > 0 /\ <<R[i][2], R[i][3], R[i][4], R[i][5], R[i][6]>> # TGet(cs.tl, R[i][1])
+       ruleMissing == \E r \in DOMAIN cs.tl : ~\E i \in 1..Len(R) : R[i][1] = r
+       ruleSum == \E i \in 1..Len(R) : R[i][2] # R[i][3] + R[i][4] + R[i][5]
+       brOff == \E i \in 1..Len(B) : B[i][1] > 0 /\ B[i][2] > 0 /\
+                   LET t == TGet(cs.bt, <<B[i][1], B[i][2]>>) IN <<B[i][3], B[i][4], B[i][5], B[i][6]>> # <<t[1], t[2], t[3], t[4]>>
+       brMissing == \E k \in DOMAIN cs.bt : ~\E i \in 1..Len(B) : <<B[i][1], B[i][2]>> = k
+       brSum == \E i \in 1..Len(B) : B[i][3] # B[i][4] + B[i][5] + B[i][6]
+   IN /\ verd' = VCap(verd
+           \o If(stk # <<>>, V("C08", idx, 0, "coverage reported while invocations are open", Len(stk), 0))
+           \o If(ruleOff, V("C08", idx, 0, "coverage counters of a rule differ from the invocations observed", R, cs.tl))
+           \o If(ruleMissing, V("C08", idx, 0, "a rule that was invoked has no coverage entry", R, DOMAIN cs.tl))
+           \o If(ruleSum, V("C08", idx, 0, "coverage: start # success + failure + unwind for a rule", R, 0))
+           \o If(brOff, V("C08", idx, 0, "coverage counters of a branch differ from the invocations observed", B, cs.bt))
+           \o If(brMissing, V("C08", idx, 0, "a branch that was taken has no coverage entry", B, DOMAIN cs.bt))
+           \o If(brSum, V("C08", idx, 0, "coverage: start # success + failure + unwind for a branch", B, 0)))
+      /\ cnt' = Bump(Bump(cnt, "cov"), "ev")
+      /\ UNCHANGED <<stk, cs, lastx>>
+
 OnOther(ev, idx) ==
-   /\ verd' = VCap(IF ev.k = "crash" THEN Append(verd, V("C03", idx, 0, "harness process crashed (signal, sanitizer report or terminate)", ev.why, 0))
+   \* (a crash while an incremental / file input is in use is about what that input class did with the bytes: C07)
+   /\ verd' = VCap(IF ev.k = "crash" THEN Append(verd, V(IF cs.cls >= 2 THEN "C07" ELSE "C03", idx, 0, "harness process crashed (signal, sanitizer report or terminate)", ev.why, 0))
                    \* C03: the contract has no action for an access outside the window: it is a verdict
                    ELSE IF ev.k = "oob" THEN Append(verd, V("C03", idx, IF stk = <<>> THEN 0 ELSE Top.r,
                                                           IF ev.kind = 0 THEN "peek at or beyond the end of the available data" ELSE "bump beyond the end of the available data",
@@ -490,6 +523,7 @@ Step(ev, idx) ==
      [] ev.k = "case" -> OnCase(ev, idx)
      [] ev.k = "end"  -> OnEnd(ev, idx)
      [] ev.k = "tree" -> OnTree(ev, idx)
+     [] ev.k = "cov"  -> OnCov(ev, idx)
      [] OTHER         -> OnOther(ev, idx)
 
 =============================================================================
